@@ -77,6 +77,30 @@ func jobsFor(id, tier string) []*Job {
 	}
 	_ = wmk
 	switch id {
+	case "C02":
+		lexOv := map[string]string{"(*github.com/Syuparn/pangaea/parser.Lexer).Lex": "parser.vLex"}
+		var ip [][]int
+		ip = append(ip, []int{2, -1, 0}) // all pairs, identifier operands
+		ip = append(ip, []int{2, -1, 1}) // all pairs, operand shapes solver-chosen? (23^2 x 9^3) too many: sharded below
+		ip = ip[:1]
+		for f := 0; f < 23; f++ {
+			ip = append(ip, []int{3, f, 0}) // all triples, first operator per shard
+		}
+		if thorough {
+			for f := 0; f < 23; f++ {
+				ip = append(ip, []int{2, f, 1}) // pairs, every operand shape in all three positions
+			}
+		} else {
+			for f := 0; f < 23; f += 4 {
+				ip = append(ip, []int{2, f, 2}) // pairs, every operand shape in the middle position
+			}
+		}
+		ij := mk("infix", "zzverifw.H_C02_infix", ip)
+		ij.Overrides = lexOv
+		add(split(ij)...)
+		mj := mk("mixed", "zzverifw.H_C02_mixed", ints(0, 24))
+		mj.Overrides = lexOv
+		add(split(mj)...)
 	case "C19":
 		var fp [][]int
 		for hh := 0; hh < 14; hh++ {
@@ -266,6 +290,8 @@ func assumptionsFor(id string) []string {
 		"harness oracles written from the property statement and docs (DESIGN.md Appendix B)",
 	}
 	switch id {
+	case "C02":
+		return append(common, "in the engine (*Lexer).Lex is replaced by a token feed (token ids from the grammar's own constants); natively the same words are rendered to source text and lexed by the real regex lexer — every natively replayed path cross-checks the token model", "oracle: the documented table of docs/reference/operators.md (not the %left lines): the expression as written and the expression with the implied parentheses inserted must print the same AST")
 	case "C19":
 		return append(common, "inductive step: every value reachable from the shared constants environment (and the shared NotImplementedErr) is fingerprinted; one evaluation in a fresh enclosed scope must leave it unchanged, and a later program must print the same value / error / stack trace as before the history — by induction this covers histories of any length", "os.Open is served from harness-provided virtual files in the engine (real temporary files in the native replay); writes to stderr are no-op stubs", "symbol tables only grow and are excluded from the fingerprint (C20)")
 	case "C06":
@@ -307,6 +333,14 @@ func assumptionsFor(id string) []string {
 func boundsFor(id, tier string, jobs []*Job) map[string]interface{} {
 	b := map[string]interface{}{"tier": tier}
 	switch id {
+	case "C02":
+		b["infix"] = "all ordered pairs and all ordered triples of the 23 infix operators (operator tokens are solver choices)"
+		if tier == "thorough" {
+			b["operand_shapes"] = "pairs with every operand shape (identifier, int literal, call, index, grouped, prefixed, chained, negated, chained call) in all three positions"
+		} else {
+			b["operand_shapes"] = "pairs with every operand shape (identifier, int literal, call, index, grouped, prefixed, chained, negated, chained call) in the middle position, for 6 first operators"
+		}
+		b["mixed_forms"] = "25 templates: prefix vs chain / infix / **, chain vs infix, indexing and calling vs prefix, calls and indexes as operands, := += => (right-to-left, relative levels), return / raise, if / if-else with infix conditions and branches, arguments and index expressions — infix slots are solver choices (third slot: one operator per level)"
 	case "C19":
 		b["program_family"] = "14 programs: value, raise, nested raise, the variable _, abstract Either props, NoPropErr, shadowing built-in names, failing chain, bear, try capturing _, raising defer, abandon, interpolation"
 		if tier == "thorough" {
@@ -419,6 +453,8 @@ func boundsFor(id, tier string, jobs []*Job) map[string]interface{} {
 
 func outsideFor(id string) []string {
 	switch id {
+	case "C02":
+		return []string{"spelling -> token (the regex lexer; C17)", "sequences of more than three infix operators", "nested if/else without parentheses", "multi-line chains, literals of functions/objects as operands", "AST printing itself (both sides are printed by the same printer)"}
 	case "C19":
 		return []string{"programs outside the family", "the playground executor (web/wasm) and HTTP handlers (same Eval entry point, not driven separately)", "REPL line state (kept on purpose between lines)", "symbol interning tables (grow-only)", "stdin / stdout contents"}
 	case "C06":
